@@ -60,6 +60,10 @@ def fragments(table):
     return sorted(f for f in frags if f)
 
 
+CALL_CHUNK = re.compile(r'^\s*(rep\s*\(|[A-Za-z_.][\w.]*[ \t]*[^:;=\s{]*[^:;={]*$)')
+KEYWORD_CHUNK = re.compile(r'^\s*(def|ns|pad|wflip|segment|reserve)\b')
+
+
 def check_program(name, slots, program, w, wd, sieve, stats, files):
     from fjv.ref import macro as R4
     from flipjump.interpreter.debugging.breakpoints import get_breakpoint_handler
@@ -68,9 +72,21 @@ def check_program(name, slots, program, w, wd, sieve, stats, files):
     chunks = R4.top_level_chunks(program)
     if files == 1:
         texts = [''.join(chunks)]
-    else:
+    elif files == 2:
         k = max(1, len(chunks) // 2)
         texts = [''.join(chunks[:k]), ''.join(chunks[k:])]
+    else:
+        # two files whose first top-level macro calls sit on the SAME line number (the second file is padded with empty lines)
+        calls = [i for i, ch in enumerate(chunks) if CALL_CHUNK.match(ch) and not KEYWORD_CHUNK.match(ch)]
+        if len(calls) < 2:
+            return
+        k = calls[0] + 1
+        line1 = ''.join(chunks[:calls[0]]).count('\n') + (len(chunks[calls[0]]) - len(chunks[calls[0]].lstrip('\n')))
+        second = ''.join(chunks[k:])
+        line2 = ''.join(chunks[k:calls[1]]).count('\n') + (len(chunks[calls[1]]) - len(chunks[calls[1]].lstrip('\n')))
+        if line1 < line2:
+            return
+        texts = [''.join(chunks[:k]), '\n' * (line1 - line2) + second]
     case = {'skeleton': name, 'slots': list(slots), 'w': w, 'files': files, 'text': '\n// ---- next file ----\n'.join(texts)}
 
     def bad(kind, expected, observed):
@@ -453,7 +469,7 @@ def work(task):
     for i, (name, slots, program, collisions) in enumerate(gen_macros.programs()):
         if i % nparts != part:
             continue
-        for files in (1, 2):
+        for files in (1, 2, 'same-line'):
             check_program(name, slots, program, w, wd, sieve, stats, files)
         if sample is None and collisions >= 2:
             sample = {'skeleton': name, 'slots': list(slots), 'w': w}
